@@ -36,6 +36,8 @@ def step (line : String) : String :=
       if JV.goodTop v then "ok " ++ showJV (JV.norm v) else "skip"
   | ["rtenc", v] => withTree v fun v =>
       if JV.goodTop v then "ok " ++ hexOfBytes (JV.encodeSpec v) else "skip"
+  | ["spec:encinto", p, v] => withHex p fun p => withTree v fun v =>
+      if JV.goodTop v then "ok " ++ hexOfBytes (p ++ JV.encodeSpec v) else "skip"
   | ["good", v] => withTree v fun v => showBool (JV.goodTop v)
   | _ => badReq
 
